@@ -403,15 +403,65 @@ def n_workers(tier: str) -> int:
     return max(1, min(n, 8 if tier == "quick" else 16))
 
 
-def run_sharded(worker, arg_list):
-    """run `worker(args)` for every element of arg_list in separate processes (fork; the parent must not
-    have imported numba/groupby_lib yet) and return the list of results in order"""
+PROGRESS = VERIF / ".cache" / "progress"
+
+
+def progress_path(tag: str) -> Path:
+    PROGRESS.mkdir(parents=True, exist_ok=True)
+    return PROGRESS / f"{tag}.json"
+
+
+def _shard_main(worker, args, conn):
+    try:
+        conn.send(("ok", worker(args)))
+    except BaseException:  # noqa
+        import traceback
+        conn.send(("exc", traceback.format_exc()[-3000:]))
+    finally:
+        conn.close()
+
+
+def run_sharded(worker, arg_list, progress_tags=None, timeout=None):
+    """run `worker(args)` for every element of arg_list in separate forked processes (the parent must not
+    have imported numba/groupby_lib yet).  A worker that dies (segfault, abort) does not hang the run:
+    its slot yields dict(crashed=True, exitcode=..., last_case=<progress file content>)."""
     import multiprocessing as mp
-    if len(arg_list) == 1:
-        return [worker(arg_list[0])]
     ctx = mp.get_context("fork")
-    with ctx.Pool(len(arg_list)) as p:
-        return p.map(worker, arg_list, chunksize=1)
+    procs = []
+    for k, a in enumerate(arg_list):
+        parent, child = ctx.Pipe(duplex=False)
+        p = ctx.Process(target=_shard_main, args=(worker, a, child))
+        p.start()
+        child.close()
+        procs.append((p, parent))
+    results = []
+    for k, (p, conn) in enumerate(procs):
+        res = None
+        try:
+            while True:
+                if conn.poll(1.0):
+                    res = conn.recv()
+                    break
+                if not p.is_alive():
+                    if conn.poll(0.1):
+                        res = conn.recv()
+                    break
+        except (EOFError, OSError):
+            res = None
+        p.join(timeout=30)
+        if res is None or res[0] != "ok":
+            last = None
+            if progress_tags is not None:
+                pp = progress_path(progress_tags[k])
+                if pp.exists():
+                    try:
+                        last = json.loads(pp.read_text())
+                    except Exception:
+                        last = None
+            results.append(dict(crashed=True, exitcode=p.exitcode, last_case=last, traceback=None if res is None else res[1]))
+        else:
+            results.append(res[1])
+    return results
 
 
 def greedy_shrink(case, candidates, still_fails, budget=400):
